@@ -183,7 +183,7 @@ def h_filter(k, crit, as_list=False, auto_names=False):
 
 def configs(tier, seed):
     cfgs = []
-    for k in ((1, 2, 3) if tier == 'quick' else (1, 2, 3, 4, 5)):
+    for k in ((1, 2, 3) if tier == 'quick' else (1, 2, 3, 4, 5, 6)):
         for crit in ('chi', 'cpd'):
             cfgs.append(Config('filter k=%d %s file explicit-names' % (k, crit), h_filter(k, crit), 1500))
     cfgs.append(Config('filter k=2 chi file automatic-names', h_filter(2, 'chi', auto_names=True), 1500))
